@@ -242,3 +242,67 @@ func TestVF_C02_Puts(t *testing.T) {
 	}
 	wg.Wait()
 }
+
+// The in-memory back-end "keeps only the newest window" also under the writes a repair makes: ReSync puts old
+// rounds straight into the base store (no append store in between). The ring must still hold the newest rounds,
+// contiguous.
+func TestVF_C02_MemdbWindow(t *testing.T) {
+	run := vfNewRun("C02", "streams-memdb-window")
+	defer run.Finish()
+	n := vfPick(60, 600)
+	for idx := 0; idx < n; idx++ {
+		rng := vfNewRng(vfCaseSeed(vfSeed(), "C02w", idx))
+		capN := []int{10, 12, 16, 25}[rng.Intn(4)]
+		st, err := vfsNewStack("memdb", rng.Bool(), capN, uint64(capN+rng.Range(0, 30)))
+		if err != nil {
+			run.Inconclusive(err.Error())
+			continue
+		}
+		info := map[string]any{"case_index": idx, "cap": capN, "head": st.head}
+		var ops []string
+		for k := 0; k < rng.Range(1, 6); k++ {
+			switch rng.Intn(3) {
+			case 0: // a repair re-writes a round older than the window (or inside it)
+				r := uint64(1 + rng.Intn(int(st.head)))
+				_ = st.base.Put(context.Background(), &common.Beacon{Round: r, Signature: vfsSig(r)})
+				ops = append(ops, fmt.Sprintf("raw-put(%d)", r))
+			case 1:
+				if _, err := st.Append(); err != nil {
+					run.Note("append: " + err.Error())
+				}
+				ops = append(ops, "append")
+			default:
+				r := st.head - uint64(rng.Intn(capN))
+				_ = st.base.Put(context.Background(), &common.Beacon{Round: r, Signature: vfsSig(r)})
+				ops = append(ops, fmt.Sprintf("raw-put(%d)", r))
+			}
+			bs, _ := vfbScan(st.base)
+			rounds := vfbRoundsOf(bs)
+			run.Count("window_scans", 1)
+			// expected: the newest min(cap, head+1) rounds
+			lo := uint64(0)
+			if st.head+1 > uint64(capN) {
+				lo = st.head + 1 - uint64(capN)
+			}
+			okWin := len(rounds) > 0 && rounds[len(rounds)-1] == st.head
+			for i := range rounds {
+				if i > 0 && rounds[i] != rounds[i-1]+1 {
+					okWin = false
+				}
+			}
+			if okWin && rounds[0] > lo+1 { // may hold one round less transiently, never more than the window start + 1
+				okWin = false
+			}
+			if !okWin {
+				info["ops"] = ops
+				run.Violation("C02/memdb-window-not-the-newest-contiguous-rounds", fmt.Sprintf("ring of %d after %v holds %v (head %d)", capN, ops, rounds, st.head), info)
+				break
+			}
+		}
+		st.Close()
+		run.Eval(fmt.Sprintf("%d/%v/%d", capN, ops, idx))
+		if idx == 0 {
+			run.Sample(map[string]any{"cap": capN, "ops": ops})
+		}
+	}
+}
